@@ -669,7 +669,32 @@ pub fn record_gencases(n_models: usize, seed: u64, out: &mut dyn Write) {
     let mut rng = StdRng::seed_from_u64(seed);
     for id in 0..n_models {
         let with_tags = id % 2 == 0;
-        let (mm, alpha) = gen_model(&mut rng, &GenOpts { with_tags, max_w: 12 });
+        let (mut mm, alpha) = gen_model(&mut rng, &GenOpts { with_tags, max_w: 12 });
+        // some models with a window size of 0 (the trainer can produce them): the n-grams of that kind are dropped, the
+        // dictionary and the tag n-grams stay.  Only relational checks (build vs build) use these cases.
+        match id % 12 {
+            10 => {
+                mm.cw = 0;
+                mm.cng.clear();
+                for t in mm.tags.iter_mut() {
+                    for e in t.cng.iter_mut() {
+                        e.weights.retain(|w| w.rel == 0);
+                    }
+                    t.cng.retain(|e| !e.weights.is_empty());
+                }
+            }
+            11 => {
+                mm.tw = 0;
+                mm.tng.clear();
+                for t in mm.tags.iter_mut() {
+                    for e in t.tng.iter_mut() {
+                        e.weights.retain(|w| w.rel == 0);
+                    }
+                    t.tng.retain(|e| !e.weights.is_empty());
+                }
+            }
+            _ => {}
+        }
         let mj = mmodel_to_json(&mm);
         let mut ops = vec![];
         let lens = [rng.gen_range(1..=3usize), rng.gen_range(2..=12usize)];
